@@ -287,6 +287,7 @@ impl<K: KeyT> World<K> {
                     if both_unlimited {
                         self.fail("C12", "unlimited-clone-failed", format!("clone_from into an unlimited interner failed: {}", err_name(&e)));
                     }
+                    self.refused_clone_target_is_consistent(a);
                     self.slots[a] = Slot { obj: Obj::Gone, shadow: Shadow::new(), born: "" };
                     err_name(&e).into()
                 }
@@ -294,6 +295,7 @@ impl<K: KeyT> World<K> {
                     if both_unlimited {
                         self.fail("C12", "unlimited-clone-failed", "clone_from into an unlimited interner panicked".into());
                     }
+                    self.refused_clone_target_is_consistent(a);
                     self.slots[a] = Slot { obj: Obj::Gone, shadow: Shadow::new(), born: "" };
                     "panic".into()
                 }
@@ -303,6 +305,37 @@ impl<K: KeyT> World<K> {
                     "fault".into()
                 }
             }
+        }
+    }
+
+    /// What a refused `clone_from` leaves behind is still an interner the program goes on using: whatever it holds
+    /// (nothing, or a prefix of the source) must be found by a lookup under the key it is listed with - otherwise
+    /// interning one of those strings again hands out a second key for it.
+    fn refused_clone_target_is_consistent(&mut self, a: usize) {
+        let mut bad: Vec<String> = Vec::new();
+        {
+            let obj = &self.slots[a].obj;
+            let pairs: Vec<(usize, String)> = match guarded(|| obj.pairs().into_iter().map(|(k, s)| (k, s.to_string())).collect::<Vec<_>>()) {
+                Caught::Ok(p) => p,
+                _ => {
+                    bad.push("iterating the target of a refused clone_from panicked".into());
+                    Vec::new()
+                }
+            };
+            if pairs.len() != obj.len() {
+                bad.push(format!("the target of a refused clone_from lists {} pairs but reports len {}", pairs.len(), obj.len()));
+            }
+            for (k, s) in pairs.iter().take(64) {
+                match guarded(|| obj.get(s)) {
+                    Caught::Ok(Some(Some(g))) if g.into_usize() == *k => {}
+                    Caught::Ok(Some(other)) => bad.push(format!("the target of a refused clone_from holds {:?} under key {k} but get finds {:?}", hex(s.as_bytes()), other.map(|x| x.into_usize()))),
+                    Caught::Ok(None) => {}
+                    _ => bad.push("a lookup on the target of a refused clone_from panicked".into()),
+                }
+            }
+        }
+        for b in bad.into_iter().take(3) {
+            self.fail("C12", "refused-clone-from-left-inconsistent-target", b);
         }
     }
 
